@@ -242,9 +242,18 @@ func (a *application) terminated(pid gen.PID) {
 		a.reason = gen.TerminateReasonNormal
 	}
 
-	old := atomic.SwapInt32(&a.state, int32(gen.ApplicationStateLoaded))
-	if old == int32(gen.ApplicationStateLoaded) {
-		return
+	// members that terminate concurrently can all find the group empty:
+	// only the one that takes the application out of the running/stopping
+	// state completes the stop. Any other state means that has been done
+	// already (and the application may have been unloaded since).
+	for {
+		old := atomic.LoadInt32(&a.state)
+		if old != int32(gen.ApplicationStateRunning) && old != int32(gen.ApplicationStateStopping) {
+			return
+		}
+		if atomic.CompareAndSwapInt32(&a.state, old, int32(gen.ApplicationStateLoaded)) {
+			break
+		}
 	}
 	if a.stopped != nil {
 		close(a.stopped)
